@@ -360,7 +360,9 @@ class Parser:
 
     def parse_integer_literal(self, stream: TokenStream) -> Expression:
         value = stream.current.value
-        if value.startswith("0") and len(value) > 1:
+        # The integer part ends where the exponent starts.
+        int_part = value.lower().split("e")[0]
+        if int_part.startswith("0") and len(int_part) > 1:
             raise JSONPathSyntaxError("invalid integer literal", token=stream.current)
 
         # Convert to float first to handle scientific notation.
@@ -373,7 +375,9 @@ class Parser:
 
     def parse_float_literal(self, stream: TokenStream) -> Expression:
         value = stream.current.value
-        if value.startswith("0") and len(value.split(".")[0]) > 1:
+        # The integer part ends where the fraction or the exponent starts.
+        int_part = value.lower().split("e")[0].split(".")[0]
+        if int_part.startswith("0") and len(int_part) > 1:
             raise JSONPathSyntaxError("invalid float literal", token=stream.current)
 
         try:
